@@ -231,6 +231,12 @@ impl Expression {
     fn flip_multiply_divide(l_op: &Operator, r_op: &Operator) -> bool {
         l_op.is_multiply_or_divide() && r_op.is_multiply_or_divide()
     }
+
+    fn flip_modulo(l_op: &Operator, r_op: &Operator) -> bool {
+        // A * B MOD C needs to flip into (A * B) MOD C, because * and / have
+        // higher priority than MOD, and A MOD B MOD C into (A MOD B) MOD C
+        (l_op.is_multiply_or_divide() || *l_op == Operator::Modulo) && *r_op == Operator::Modulo
+    }
 }
 
 // TODO #[deprecated]
@@ -383,6 +389,7 @@ impl ExpressionTrait for Expression {
                         || Self::flip_multiply_plus(l_op, r_op)
                         || Self::flip_plus_minus(l_op, r_op)
                         || Self::flip_multiply_divide(l_op, r_op)
+                        || Self::flip_modulo(l_op, r_op)
                 }
                 _ => false,
             },
